@@ -51,6 +51,15 @@ def urls_from_text(string):
         if i != stop:
             url = url[: i + 1]
 
+        # NOTE: repeated punctuation is kept above (e.g. "(parentheses))"), but
+        # it must go when what is left is not an url (e.g. "http://c.com.««")
+        while (
+            len(url) > 1
+            and url[-1] in IRRELEVANT_PUNCTUATION
+            and not URL_WITH_PROTOCOL_RE.match(url)
+        ):
+            url = url[:-1]
+
         if markdown_target and not URL_WITH_PROTOCOL_RE.match(url):
             continue
 
